@@ -65,6 +65,9 @@ def build_opspecs(texts: list[str]) -> list[dict]:
             specs.append({"op": "parse_string", "text": t, "mode": "exec", "warn": True})
             if j % 3 == 0:
                 specs.append({"op": "parse_file", "text": t, "warn": True})
+    for t in pool.KEYWORD_NAMES[:6]:
+        for pv in pool.PY_VERSIONS:
+            specs.append({"op": "parse_string", "text": t, "mode": "exec", "py_version": pv, "warn": True})
     for t in pool.DEEP:
         specs.append({"op": "parse_string", "text": t, "mode": "exec"})
         specs.append({"op": "parse_file", "text": t})
@@ -290,6 +293,18 @@ class Workload:
                           {"op": "flood", "n": rng.choice([500, 2500, 6000, 12000]), "tag": f"h{i}"})
         n_faults = rng.choice([0, 1, 1, 2, 3, 4])
         p = n_faults / max(1, len(script))
+        if rng.random() < 0.08 and not long_history:
+            # a caller that moves between two working directories and names its files relative to them
+            out2, where = [], 0
+            for op in script:
+                if rng.random() < 0.3:
+                    where = 1 - where
+                    out2.append({"op": "chdir", "to": where})
+                if op.get("op") == "parse_file":
+                    op = dict(op)
+                    op["rel"] = True
+                out2.append(op)
+            script = [{"op": "chdir", "to": 0}] + out2
         warn_run = rng.random() < 0.05 and bool(self.warnish) and not long_history
         if warn_run:
             script = [dict(rng.choice(self.warnish)) for _ in range(len([o for o in script if "text" in o]))]
@@ -505,7 +520,7 @@ def _run_one(task: dict) -> dict:
     if task.get("warn_errors"):
         import warnings
 
-        warnings.simplefilter("error", SyntaxWarning)  # the process was started with -W error::SyntaxWarning
+        warnings.simplefilter("error")  # the process was started with -W error
     else:
         import warnings
 
